@@ -188,8 +188,29 @@ def _link_homes():
     return st.lists(A.poses6(maxnorm=3.0, tiny=False), min_size=NMAX, max_size=NMAX)
 
 
-def cases(extra=None, **speckw):
-    d = {"arm": arm_specs(**speckw), "prep": preps(), "theta": A.theta_codes()}
+def generic_theta_codes():
+    """Codes for decode_generic: mostly uniform joint values, a few exactly at the ends of the admissible interval."""
+    one = st.tuples(st.sampled_from(["u"] * 14 + ["lo", "hi"]), G.floats(0.0, 1.0))
+    return st.lists(one, min_size=NMAX, max_size=NMAX)
+
+
+def decode_generic(model, code):
+    """Joint vector inside [min+1e-3, max-1e-3] from the u's of a theta code, de-correlated per joint with golden-ratio
+    offsets: Hypothesis' favourite u values (0, 0.5, 1) would otherwise put every joint on the same special value
+    (all-zero / all-at-a-limit configurations are structurally singular for most arms)."""
+    th = np.zeros(model.n)
+    for i in range(model.n):
+        kind, u = code[i % len(code)]
+        lo = max(float(model.mins[i]), -A.TWO_PI) + MARGIN
+        hi = min(float(model.maxs[i]), A.TWO_PI) - MARGIN
+        v = (u + 0.137 + 0.6180339887498949 * (i + 1)) % 1.0
+        th[i] = lo if kind == "lo" else (hi if kind == "hi" else lo + v * (hi - lo))
+    return th
+
+
+def cases(extra=None, theta=None, specs=None, **speckw):
+    d = {"arm": arm_specs(**speckw) if specs is None else specs, "prep": preps(),
+         "theta": A.theta_codes() if theta is None else theta}
     if extra:
         d.update(extra)
     return st.fixed_dictionaries(d)
@@ -271,6 +292,7 @@ def _apply_prep(arm, model, prep, ctx, state):
             sut(arm.restoreOriginalEE)
             model.M = model.M0.copy()
             state["tool_ops"] += 1
+            state["tools"].append(model.M0.copy())
         else:
             rel = np.array(op["rel"], dtype=float)
             if op["theta"] is not None:
@@ -359,7 +381,10 @@ def setup(case, ctx, after_build=None):
         s.state["urdf_trailing_fixed"] = False
     s.construction_B = model.B.copy()
     _apply_prep(arm, model, case["prep"], ctx, s.state)
-    theta = A.decode_theta(model, case["theta"], inside=True, margin=MARGIN)
+    if case.get("theta_mode") == "generic":
+        theta = decode_generic(model, case["theta"])
+    else:
+        theta = A.decode_theta(model, case["theta"], inside=True, margin=MARGIN)
     lo = np.maximum(model.mins, -A.TWO_PI) + MARGIN
     hi = np.minimum(model.maxs, A.TWO_PI) - MARGIN
     if np.any(theta < lo - 1e-15) or np.any(theta > hi + 1e-15):
@@ -632,14 +657,13 @@ def c_link_masses(case, ctx):
     frames = [None] + [model.H[j - 1] for j in range(1, n)] + [s.state["last_home"]]
     last_alts = [frames[n]]
     lastpos = frames[n][:3, 3]
-    coincident = [float(np.abs(Mt[:3, 3] - lastpos).max()) < 1e-6 for Mt in s.state["tools"]]
+    tools = s.state["tools"]                              # chronological home tool poses (base frame), tools[0] = M0
+    coincident = [float(np.abs(Mt[:3, 3] - lastpos).max()) < 1e-6 for Mt in tools]
     tool_ops = s.state["tool_ops"] > 0
-    if spec["kind"] != "urdf" and not tool_ops and coincident[0]:
+    jh_is_last = not s.state["urdf_trailing_fixed"]      # the library's stored last joint home IS the last joint's frame
+    if jh_is_last and all(coincident):
         last_alts.append(model.M.copy())                 # tool on the last joint: the tool frame is reported as the joint's
-        ctx.label("tool on last joint: both orientations admitted")
-    if tool_ops and masses[n] != 0.0 and (any(coincident) or s.state["urdf_trailing_fixed"]):
-        s.known_region = True
-        ctx.label("KNOWN region: tool change x last-link frame bookkeeping")
+    in_region = tool_ops and masses[n] != 0.0 and ((not jh_is_last) or (coincident[-1] and not all(coincident)))
     # ---- near-pi: frames the library re-expressed through axis-angle ---------------------------------------------
     reexpressed = s.state["moved"] or (spec["kind"] == "urdf" and not np.array_equal(s.construction_B, np.eye(4)))
     risky = []
@@ -654,6 +678,11 @@ def c_link_masses(case, ctx):
         ctx.label("near-pi frame (C01 finding): not compared")
         sut(arm.staticForcesWithLinkMasses, Wobj, th.copy())
         return
+    if len(last_alts) > 1:
+        ctx.label("tool on last joint: both orientations admitted")
+    if in_region:
+        s.known_region = True
+        ctx.label("in region tool_change_last_link_frame")
 
     E = A.chain_prefixes(model, th)
     gsum = sum(abs(masses[j]) for j in range(1, n + 1)) * float(np.linalg.norm(grav))
@@ -724,7 +753,8 @@ CLAUSES = [
     Clause("statics_is_transpose_power_identity", c_statics,
            cases({"qdot": _vecn(10.0), "wrench": wrench_inputs()}), 300, 2400),
     Clause("statics_inverse_recovers_wrench", c_statics_inv,
-           cases({"wrench": wrench_inputs()}, nmin=6, nmax=7), 260, 2000),
+           cases({"wrench": wrench_inputs(), "theta_mode": st.just("generic")}, theta=generic_theta_codes(),
+                 specs=st.one_of(arm_specs(nmin=6, nmax=7, limits="default"), arm_specs(nmin=6, nmax=7))), 260, 2000),
     Clause("statics_with_link_masses", c_link_masses,
            cases({"wrench": wrench_inputs(), "mass": mass_inputs()}), 320, 2400,
            region=tool_change_last_link_region),
